@@ -10,6 +10,9 @@ twice; that is not an evaluation of a sub-expression - DESIGN.md C20 calibration
 Enumerated completely:
   * calls: every syntactically valid layout of <= 4 argument slots over {positional, *star, keyword, **dstar}
     (decided by CPython's own parser), as plain call and as method call on a logging receiver;
+  * calls of cdef / @cython.cfunc callees (keywords are mapped to C arguments at compile time): for 3- and 4-parameter
+    callees every split positional-prefix / keywords x ALL permutations of the keyword order, object and C-typed
+    parameters, optional parameters (every subset and order), nested (cdef methods do not accept keywords);
   * subscripts, slices, attribute/subscript/slice targets, augmented targets, chained assignment, unpacking
     with star targets, swaps through logging containers (ParallelAssignment), displays (tuple/list/set/
     dict incl. ** merging), comparison chains, conditional expressions, comprehensions, f-strings, binary
@@ -255,6 +258,67 @@ TYPED = [
 ]
 
 
+
+# cdef / @cython.cfunc callees: keyword arguments in non-declared order are mapped to positional C arguments at compile time
+# (GeneralCallNode.map_to_simple_call_node); every argument is a logging leaf
+CFUNC_PRELUDE = TYPED_PRELUDE + """
+@cython.cfunc
+def G3(a, b, c):
+    ev('G3', a, b, c)
+    return (a, b, c)
+@cython.cfunc
+def G4(a, b, c, d):
+    ev('G4', a, b, c, d)
+    return (a, b, c, d)
+@cython.cfunc
+def H3(a: cython.int, b: cython.double, c):
+    ev('H3', a, b, c)
+    return (a, b, c)
+@cython.cfunc
+def H4(a: cython.int, b: cython.int, c: cython.int, d: cython.int) -> cython.int:
+    ev('H4', a, b, c, d)
+    return a * 1000 + b * 100 + c * 10 + d
+@cython.cfunc
+def D4(a, b=V(90, 'db'), c=V(91, 'dc'), d=V(92, 'dd')):
+    ev('D4', a, b, c, d)
+    return (a, b, c, d)
+"""
+
+
+def cfunc_calls(tier):
+    """All splits positional-prefix / keywords x ALL permutations of the keyword order, for 3- and 4-parameter cfuncs."""
+    out = []
+    for fname, names, leaf in (('G3', 'abc', 'A(%d)'), ('G4', 'abcd', 'A(%d)'), ('H3', 'abc', None), ('H4', 'abcd', 'CI(%d, %d)')):
+        n = len(names)
+        for npos in range(n + 1):
+            for perm in itertools.permutations(names[npos:]):
+                args = []
+                k = 0
+                def mk(param):
+                    nonlocal k
+                    k += 1
+                    if fname == 'H3':
+                        return {'a': 'CI(%d, %d)' % (k, k), 'b': 'CD(%d, %d.5)' % (k, k), 'c': 'A(%d)' % k}[param]
+                    return leaf % ((k, k) if leaf.count('%d') == 2 else k)
+                for prm in names[:npos]:
+                    args.append(mk(prm))
+                for prm in perm:
+                    args.append('%s=%s' % (prm, mk(prm)))
+                out.append(('cfunc-call/%s/pos%d/%s' % (fname, npos, ''.join(perm) or '-'), 'return %s(%s)' % (fname, ', '.join(args)), 'c'))
+    # optional parameters: every subset of the optional keywords in every order, after 1 positional
+    for r in range(0, 4):
+        for perm in itertools.permutations('bcd', r):
+            args = ['A(1)'] + ['%s=A(%d)' % (prm, i + 2) for i, prm in enumerate(perm)]
+            out.append(('cfunc-call/D4/opt/%s' % (''.join(perm) or '-'), 'return D4(%s)' % ', '.join(args), 'c'))
+        for perm in itertools.permutations('abcd', r + 1):
+            if 'a' not in perm:
+                continue
+            args = ['%s=A(%d)' % (prm, i + 1) for i, prm in enumerate(perm)]
+            out.append(('cfunc-call/D4/kw-only/%s' % ''.join(perm), 'return D4(%s)' % ', '.join(args), 'c'))
+    out.append(('cfunc-call/nested', 'return G3(c=G3(c=A(1), a=A(2), b=A(3)), b=G3(A(4), c=A(5), b=A(6)), a=A(7))', 'c'))
+    return out
+
+
 def functions(tier):
     out = []          # (tag, body, prelude kind)
     for lay, args in call_layouts(4 if tier == 'thorough' else 3):
@@ -276,6 +340,7 @@ def functions(tier):
                         'if %s:\n    return A(7)\nelse:\n    return A(8)' % expr, 'p'))
     for tag, body in TYPED:
         out.append((tag, body, 't'))
+    out += cfunc_calls(tier)
     if tier == 'thorough':
         for (i, outer), (j, fill) in itertools.product(enumerate(EXPRS), enumerate(FILLS)):
             out.append(('nest/%d/%d' % (i, j), 'return ' + outer.format(h=fill), 'p'))
@@ -311,6 +376,8 @@ def keyfn(tag, inp, exp, got):
         t = 'mcall/nested' if where == 'getattr->leaf' else 'nest/' + t.split('/')[1]
     if t.startswith(('bool/', 'bool-if/')):
         t = '/'.join(t.split('/')[:2])
+    if t.startswith('cfunc-call/'):
+        t = '/'.join(t.split('/')[:2])
     if t.startswith(('call/', 'mcall/')):
         kinds = ''.join(sorted(set(t.split('/')[1])))
         t = t.split('/')[0] + '/{' + kinds + '}'
@@ -324,7 +391,7 @@ def run(ctx):
         fl = [f for f in fl if flt in f[0]]
     mods = []
     per = 60
-    for kind, prelude in (('p', PRELUDE), ('t', TYPED_PRELUDE)):
+    for kind, prelude in (('p', PRELUDE), ('t', TYPED_PRELUDE), ('c', CFUNC_PRELUDE)):
         sub = [f for f in fl if f[2] == kind]
         parts = []
         for n, (tag, body, _) in enumerate(sub):
@@ -338,7 +405,7 @@ def run(ctx):
     samples = [{'tag': fl[i][0], 'body': fl[i][1]} for i in (0, len(fl) // 3, len(fl) // 2, len(fl) - 1)] if fl else [{'filter': flt}]
     cov = g5.cov_from(st, 'every skeleton is one evaluation; counted once per distinct (skeleton, reference event log + outcome)', samples,
                       {'call_layouts': len(call_layouts(4)), 'statement_skeletons': len(STMTS), 'bool_shapes': len(BOOL_SHAPES),
-                       'typed_skeletons': len(TYPED)})
+                       'typed_skeletons': len(TYPED), 'cfunc_call_skeletons': len(cfunc_calls(ctx.tier))})
     return cov, ['__bool__ events are not logged (by design, see DESIGN.md C20)', 'skeleton nesting depth is bounded']
 
 
